@@ -238,6 +238,15 @@ func c11Replay(args []string) int {
 
 // ---- B2: expression-level differential on random documents
 
+var c11Prefix = "p"
+
+func c11Rename(x string) string {
+	if c11Prefix == "p" {
+		return x
+	}
+	return strings.NewReplacer("xmlns:p", "xmlns:"+c11Prefix, "p:", c11Prefix+":").Replace(x)
+}
+
 func c11Drive(args []string) int {
 	n := 200
 	if len(args) > 1 {
@@ -349,7 +358,7 @@ func c11Drive(args []string) int {
 		// context nodes: the document and a few inner elements (selected by the same expression on both sides)
 		ctxExprs := []string{".", "/root/*[1]", "/root/*[2]", "//b[1]", "//a[last()]"}
 		for xi := 0; xi < nexpr; xi++ {
-			expr := genExpr()
+			expr := c11Rename(genExpr())
 			ctxE := ctxExprs[r.Intn(len(ctxExprs))]
 			compiled, cerr := xpath.Compile(expr)
 			if cerr != nil {
@@ -466,7 +475,9 @@ func c11Drive(args []string) int {
 		}
 	}
 	for di := 0; di < n; di++ {
-		text := `<root xmlns:p="urn:p">` + gen(0) + gen(0) + `</root>`
+		// (the prefix the documents bind to urn:p changes from document to document: a prefix is a property of a document)
+		c11Prefix = []string{"p", "p", "q2", "zz", "p"}[di%5]
+		text := c11Rename(`<root xmlns:p="urn:p">` + gen(0) + gen(0) + `</root>`)
 		sr, e := idr.NewXMLStreamReader(strings.NewReader(text), "/*")
 		if e != nil {
 			continue
@@ -483,6 +494,7 @@ func c11Drive(args []string) int {
 			return 3
 		}
 		compareDoc(idrDoc, xdoc, text, 12)
+		c11Prefix = "p"
 		if di == 0 {
 			sum.sample(M{"xml": text, "expr": genExpr()})
 		}
